@@ -400,6 +400,9 @@ def run(ctx):
             e['k'], e['out'] = 'other', list(out[:80])
         before, dec, sci = shape_of(field)
         key = {'type': var[-1], 'before': before, 'dec': dec, 'sci': sci, 'neg': neg, 'zero': not xd, 'xe': xe}
+        # output class "flagged with % although every digit shown is zero" (see known finding percent-zero-fraction-field)
+        key['pct'] = e['out'][:1] == [PCT]
+        key['out_all_zero'] = bool(e['out']) and all(c == 48 for c in e['out'] if 48 <= c <= 57) and any(48 <= c <= 57 for c in e['out'])
         if not sci:
             # input class "the first significant digit lies just below the last decimal shown" (see known finding)
             key['below_last'] = bool(dec > 0 and xd and xe == -dec and xd[0] >= 4)
